@@ -203,7 +203,7 @@ impl Property for C15 {
     }
 
     fn cases(&self, seed: u64, tier: Tier) -> Vec<Case> {
-        let n = if tier == Tier::Quick { 250 } else { 2500 };
+        let n = if tier == Tier::Quick { 500 } else { 4000 };
         let mut out = vec![];
         for (name, src) in [("corpus/extremes", include_str!("../../corpus/C15/extremes.wgsl"))] {
             out.push(Case::new(name, src, Params::default()));
